@@ -26,7 +26,19 @@ def _val(env, op):
 def eval_char_pred(body, ch):
     # the character parameter (a closure's first parameter is its environment; `|scanner, ch| ..` has the char last)
     idx = [k for k in range(1, body.arg_count + 1) if body.locals[k]['ty'] == 'char']
-    return _eval_char_pred(body, ch, idx[0] if len(idx) == 1 else (2 if body.is_closure else 1))
+    r = _eval_char_pred(body, ch, idx[0] if len(idx) == 1 else (2 if body.is_closure else 1))
+    if r is None and len(idx) == 1 and body.arg_count == 1 and not body.is_closure:
+        # calls of other pure local code (`DelimTokenType::from(ch).is_bracket()`), std's ASCII class tests: run it
+        import cinterp
+        prog = getattr(body.facts, '_prog', None)
+        if prog is not None:
+            try:
+                v = cinterp.Interp(prog).run(body, [ch])
+                if v in (0, 1):
+                    r = v
+            except cinterp.Unknown:
+                r = None
+    return r
 
 
 def _eval_char_pred(body, ch, pidx, depth=0):
@@ -126,6 +138,9 @@ def char_set(body):
     cand = set()
     for c in consts:
         cand |= {c - 1, c, c + 1}
+    if prog is not None:
+        import cinterp
+        cand |= cinterp.callee_edges_and_consts(prog, body)
     cand |= {0x20, 0x09, 0x0D, 0x0A, 0x0B, 0x0C, 0x41, 0x30, 0xA0, 0x3000, 0x85}
     cand = {c for c in cand if 0 <= c <= 0x10FFFF and not (0xD800 <= c <= 0xDFFF)}
     acc = set()
@@ -165,6 +180,7 @@ class TokRoles:
                     adv_calls = [x for x in g.live_calls if x.ruid in self.tm.char_adv]
                     break
         self.dispatch_adv = adv_calls[0] if adv_calls else None
+        self.scan_body = chain[-1][0]
         # skipper: a local call on &mut self that dominates the dispatching advance and loops with an
         # advance guarded by a char predicate (given directly, or handed in as a fn / closure argument)
         if self.dispatch_adv:
@@ -321,7 +337,9 @@ def _rule_wws(tr, tbodies):
                 o = single_origin(trace_operand(b, tc.args[0], through_calls=set(TRANSPARENT_CALLS) | {'std::clone::Clone::clone'}))
                 if o is not None and o.kind == 'callres' and o.data.ruid is not None:
                     pk = prog.by_id[o.data.ruid]
-                    reaches_next = roles.token_next.id in prog.reach([pk.id])
+                    rch = prog.reach([pk.id])
+                    # through the scanner: TOKEN-NEXT itself, or the body it delegates the scanning to (skip + dispatch)
+                    reaches_next = roles.token_next.id in rch or getattr(tr, 'scan_body', roles.token_next).id in rch
                     is_char = 'char' in pk.locals[0]['ty'] and roles.token_adt not in pk.locals[0]['ty']
                     if reaches_next and roles.token_adt in pk.locals[0]['ty']:
                         good = True
@@ -434,7 +452,8 @@ def rule_tspan(sm, roles):
         return first
     second = _rule_tspan(sm, roles, roles.token_bodies(views='ho'))
     from engine import covers
-    if covers(first, second) and not any(o.status == 'violated' for o in second):
+    nv = lambda obs: len([o for o in obs if o.status == 'violated'])
+    if covers(first, second) and nv(second) < nv(first):
         for o in second:
             o.what += ' [read with combinator closures inlined]'
         return second
